@@ -181,6 +181,11 @@ def check(ctx):
         r = absorb(out)
         aborted = counters.get("aborted_after_hang", 0) > 0
     if not aborted:
+        # valid files inflated with comments / literals longer than any buffer (4 KiB .. 70 KB): go/parser is the judge
+        out2 = ctx.path("inflate.json")
+        run_driver(ctx, [drv, "-mode", "inflate", "-cases", cases, "-n", "400" if ctx.tier == "quick" else "6000", "-out", out2])
+        absorb(out2)
+    if not aborted:
         nrec = NMUT[ctx.tier]
         res = tlc(ctx, "imports", "Trace_Imports.tla", "Trace_Imports.cfg", files=[trace], workers=NCPU,
                   timeout=2400, name="trace")
